@@ -965,8 +965,17 @@ class Executor(Generic[TContext]):
         # The abort signal fired (possibly in the same tick the task settled);
         # discard any task result and reject with the abort reason.
         task.cancel()
-        with suppress(BaseException):
-            await task
+        try:
+            await wait({task})
+        except CancelledError:
+            # This wrapper has been cancelled itself while the cancelled task was
+            # settling. That cancellation must not be swallowed, since otherwise
+            # the caller would keep running although it has been cancelled.
+            await wait({task})
+            raise
+        finally:
+            if task.done() and not task.cancelled():
+                task.exception()  # mark a late exception as retrieved
         raise self.abort_error()
 
     def abort_error(self) -> Exception:
